@@ -255,6 +255,24 @@ pub fn transform_bytes(input: &[u8], cfg: &Cfg) -> ByteOutcome {
     }
 }
 
+/// As `transform_bytes`, and how many bytes had reached the writer when the transform failed.
+pub fn transform_bytes_written(input: &[u8], cfg: &Cfg) -> (ByteOutcome, usize) {
+    let c = cfg.to_svgdx();
+    let mut out: Vec<u8> = Vec::new();
+    let r = catch_unwind(AssertUnwindSafe(|| {
+        let mut rd = Cursor::new(input.to_vec());
+        svgdx::transform_stream(&mut rd, &mut out, &c)
+    }));
+    match r {
+        Ok(Ok(())) => (ByteOutcome::Ok(out), 0),
+        Ok(Err(e)) => (ByteOutcome::Err(err_kind(&format!("{e:?}")), e.to_string()), out.len()),
+        Err(_) => {
+            let (l, m) = take_last_panic().unwrap_or(("?".into(), "?".into()));
+            (ByteOutcome::Panic(l, m), out.len())
+        }
+    }
+}
+
 /// Format a number the way an author would write it (shortest form, no exponent).
 pub fn num(x: f64) -> String {
     if x == x.trunc() && x.abs() < 1e15 {
